@@ -54,11 +54,14 @@ ChunkLaw ==
        /\ lens[Len(lens)] = 0
        /\ \A i \in 1..(Len(lens) - 1) : lens[i] \in 1..case.c
        /\ \A i \in 1..(Len(lens) - 2) : lens[i] = case.c
-       \* every proper prefix of a valid stream is rejected as truncated
+       \* a proper prefix of a valid stream is rejected as truncated - or, when only the terminator is cut,
+       \* read leniently as the complete body; it is never read as something else
        /\ LET s == Chunked(b, case.c, "plain") IN
-            \A k \in {0, 1, Len(s) \div 2, Len(s) - 2, Len(s) - 1} :
+            \A k \in {0, 1, Len(s) \div 2, Len(s) - 5, Len(s) - 4, Len(s) - 3, Len(s) - 2, Len(s) - 1} :
                (k >= 0 /\ k < Len(s)) =>
-                   LET P == Parse(SubSeq(s, 1, k)) IN ~P.ok /\ P.why \in {"eof_in_size", "eof_in_data", "eof_in_crlf"}
+                   LET P == Parse(SubSeq(s, 1, k)) IN
+                   IF k >= Len(s) - 4 THEN P.ok /\ P.lenient /\ P.body = b
+                   ELSE ~P.ok /\ P.why \in {"eof_in_size", "eof_in_data", "eof_in_crlf"}
 
 \* malformed streams: truncation is always rejected with an eof reason; decoding never invents bytes
 StreamLaw ==
@@ -69,11 +72,12 @@ StreamLaw ==
                /\ \A i \in 1..Len(P.body) : P.body[i] \in Rng(case.stream)
                \* what was consumed is itself a complete stream with the same meaning
                /\ Parse(SubSeq(case.stream, 1, P.used)).body = P.body
-               \* and no proper prefix of the consumed part is accepted
-               /\ \A k \in 0..(P.used - 1) : ~Parse(SubSeq(case.stream, 1, k)).ok
+               \* and no proper prefix of the consumed part is strictly accepted
+               /\ \A k \in 0..(P.used - 1) : LET Q == Parse(SubSeq(case.stream, 1, k)) IN ~Q.ok \/ Q.lenient
     /\ ~P.ok => P.why \in {"eof_in_size", "eof_in_data", "eof_in_crlf", "bad_size", "negative_size", "no_crlf"}
     /\ (case.kind = "mutant" /\ case.mut = "trunc") =>
-          ~P.ok /\ P.why \in {"eof_in_size", "eof_in_data", "eof_in_crlf"}
+          \/ ~P.ok /\ P.why \in {"eof_in_size", "eof_in_data", "eof_in_crlf"}
+          \/ P.ok /\ P.lenient /\ P.used = Len(case.stream)
 
 CodingLaw ==
   case.kind = "coding" =>
